@@ -1,5 +1,184 @@
 import WuffsVerif.Common.Line
-/-! Line driver for C09 — stub, not built yet. -/
-open WuffsVerif.Line
+import WuffsVerif.Model.ObjInit
+import WuffsVerif.Model.Choose
+import WuffsVerif.Model.JpegIdctRange
+import WuffsVerif.Model.HashSpec
+/-! Line driver for C09.  Ops:
+  init <options> <selfNull 0|1> <sizeof_star_self> <wuffs_version> <prior> <obj…>
+        prior = z | c:<hh> | r:<seed> | h:<hex>
+        obj   = O <size> <implSize> <nChoosy> (<off> <sym>)* <nVt> (<off> <sym>)* <nSubs> (<off> obj)*
+     -> ok <rle of the object's bytes after initialize> | err <status>
+        rle: tokens joined by '.', token = hh | pp (pointer byte), optionally *count
+  choose <defined-macros> <have> <cur> <name:arch>…      (lists comma separated, `-` = empty)
+     -> sel <name>
+  idct <64 u16 LE coefficients, hex> <64 u8 quants, hex>
+     -> p=<64 bytes portable> a=<64 bytes avx2 emulation> inrange=<0|1>
+  idctp … -> p=<…> inrange=<0|1>
+  adler32|crc32|crc64 <hex> -> v <decimal>
+-/
+open WuffsVerif WuffsVerif.Line
 
-def main : IO Unit := runPure (fun _ => "bad-op")
+namespace C09
+open WuffsVerif.ObjInit
+
+def parseSlots : Nat → List String → Option (List Slot × List String)
+  | 0, ts => some ([], ts)
+  | n + 1, a :: b :: ts => do
+    let off ← a.toNat?
+    let sym ← b.toNat?
+    let (rest, ts') ← parseSlots n ts
+    pure (⟨off, sym⟩ :: rest, ts')
+  | _, _ => none
+
+mutual
+def parseObj : Nat → List String → Option (Obj × List String)
+  | 0, _ => none
+  | fuel + 1, "O" :: s :: i :: nc :: ts => do
+    let size ← s.toNat?
+    let impl ← i.toNat?
+    let nC ← nc.toNat?
+    let (ch, ts) ← parseSlots nC ts
+    match ts with
+    | nv :: ts => do
+      let nV ← nv.toNat?
+      let (vt, ts) ← parseSlots nV ts
+      match ts with
+      | ns :: ts => do
+        let nS ← ns.toNat?
+        let (subs, ts) ← parseSubs fuel nS ts
+        pure (Obj.mk size impl ch vt subs, ts)
+      | [] => none
+    | [] => none
+  | _, _ => none
+def parseSubs : Nat → Nat → List String → Option (Subs × List String)
+  | _, 0, ts => some (Subs.nil, ts)
+  | 0, _, _ => none
+  | fuel + 1, n + 1, off :: ts => do
+    let o ← off.toNat?
+    let (ob, ts) ← parseObj fuel ts
+    let (rest, ts) ← parseSubs fuel n ts
+    pure (Subs.cons o ob rest, ts)
+  | _, _, _ => none
+end
+
+def prngByte (seed i : Nat) : UInt8 :=
+  let x : UInt64 := UInt64.ofNat seed * 0x9E3779B97F4A7C15 + UInt64.ofNat i * 0xBF58476D1CE4E5B9
+  let x := x ^^^ (x >>> 31)
+  let x := x * 0x94D049BB133111EB
+  (x >>> 56).toUInt8
+
+def parsePrior (s : String) : Option Mem :=
+  if s == "z" then some (fun _ => .byte 0)
+  else if s.startsWith "c:" then
+    match fromHex (s.drop 2).toString with
+    | some [b] => some (fun _ => .byte b)
+    | _ => none
+  else if s.startsWith "r:" then
+    (s.drop 2).toString.toNat?.map (fun seed => fun i => .byte (prngByte seed i))
+  else if s.startsWith "h:" then
+    (fromHexArr (s.drop 2).toString).map (fun arr => fun i => .byte (if i < arr.size then arr.get! i else 0))
+  else none
+
+def cellTok (c : Cell) : String :=
+  match c with
+  | .byte b => String.ofList [hexDigit (b.toNat / 16), hexDigit (b.toNat % 16)]
+  | .ptr _ _ => "pp"
+
+def rle (toks : List String) : String :=
+  let rec go (l : List String) (cur : String) (n : Nat) (acc : List String) : List String :=
+    match l with
+    | [] => (if n == 0 then acc else (if n == 1 then cur else s!"{cur}*{n}") :: acc).reverse
+    | t :: rest =>
+      if n > 0 && t == cur then go rest cur (n + 1) acc
+      else go rest t 1 (if n == 0 then acc else (if n == 1 then cur else s!"{cur}*{n}") :: acc)
+  ".".intercalate (go toks "" 0 [])
+
+def statusWord : Status → String
+  | .badReceiver => "bad-receiver"
+  | .badSizeofReceiver => "bad-sizeof-receiver"
+  | .badWuffsVersion => "bad-wuffs-version"
+  | .falselyClaimedAlreadyZeroed => "falsely-claimed-already-zeroed"
+
+def initOp (l : List String) : String :=
+  match l with
+  | opts :: sn :: sz :: ver :: prior :: desc =>
+    match opts.toNat?, sn.toNat?, sz.toNat?, ver.toNat?, parsePrior prior, parseObj 64 desc with
+    | some o, some selfNull, some sizeArg, some v, some m, some (obj, []) =>
+      match wuffsInitialize obj (selfNull != 0) sizeArg v o m with
+      | .error e => "err " ++ statusWord e
+      | .ok r => "ok " ++ rle ((List.range obj.size).map (fun i => cellTok (r i)))
+    | _, _, _, _, _, _ => "bad-op"
+  | _ => "bad-op"
+
+open WuffsVerif.Choose in
+def parseArch (s : String) : Option Arch :=
+  match s with
+  | "none" => some .none | "sse42" => some .x86Sse42 | "avx2" => some .x86Avx2
+  | "bmi2" => some .x86Bmi2 | "neon" => some .armNeon | "crc32" => some .armCrc32
+  | _ => none
+
+def commaList (s : String) : List String := if s == "-" then [] else s.splitOn ","
+
+open WuffsVerif.Choose in
+def chooseOp (l : List String) : String :=
+  match l with
+  | macros :: has :: cur :: alts =>
+    let ms := commaList macros
+    let hs := commaList has
+    let cpu : Cpu := {
+      defined := fun m => match m with
+        | .armCrc32 => ms.contains "crc32" | .armNeon => ms.contains "neon"
+        | .x86_64_v2 => ms.contains "v2" | .x86_64_v3 => ms.contains "v3"
+      has := fun a => match a with
+        | .none => false | .armCrc32 => hs.contains "crc32" | .armNeon => hs.contains "neon"
+        | .x86Sse42 => hs.contains "sse42" | .x86Avx2 => hs.contains "avx2" | .x86Bmi2 => hs.contains "bmi2" }
+    let parsed : Option (List Alt) := alts.mapM (fun s =>
+      match s.splitOn ":" with
+      | [n, a] => (parseArch a).map (fun ar => ⟨n, ar⟩)
+      | _ => none)
+    match parsed with
+    | some as => "sel " ++ choose cpu as cur
+    | none => "bad-op"
+  | _ => "bad-op"
+
+def u16sOfBytes : List UInt8 → List UInt16
+  | a :: b :: rest => (a.toUInt16 ||| (b.toUInt16 <<< 8)) :: u16sOfBytes rest
+  | _ => []
+
+open WuffsVerif.JpegIdct in
+def idctOp (withAvx : Bool) (l : List String) : String :=
+  match l with
+  | [c, q] =>
+    match fromHex c, fromHex q with
+    | some cb, some qb =>
+      if cb.length != 128 || qb.length != 64 then "bad-op" else
+      let b : Array UInt16 := (u16sOfBytes cb).toArray
+      let qa : Array UInt16 := (qb.map (·.toUInt16)).toArray
+      let p := idctPortable b qa
+      let ir := if blockInRange b qa then "1" else "0"
+      if withAvx then s!"p={toHex p} a={toHex (idctAvx2 b qa)} inrange={ir}"
+      else s!"p={toHex p} inrange={ir}"
+    | _, _ => "bad-op"
+  | _ => "bad-op"
+
+def hashOp (f : List UInt8 → Nat) (l : List String) : String :=
+  match l with
+  | [h] => match fromHex h with
+    | some bs => "v " ++ toString (f bs)
+    | none => "bad-op"
+  | _ => "bad-op"
+
+def step (l : List String) : String :=
+  match l with
+  | "init" :: rest => initOp rest
+  | "choose" :: rest => chooseOp rest
+  | "idct" :: rest => idctOp true rest
+  | "idctp" :: rest => idctOp false rest
+  | "adler32" :: rest => hashOp HashSpec.adler32 rest
+  | "crc32" :: rest => hashOp HashSpec.crc32 rest
+  | "crc64" :: rest => hashOp HashSpec.crc64 rest
+  | _ => "bad-op"
+
+end C09
+
+def main : IO Unit := runPure C09.step
